@@ -53,11 +53,13 @@ func genSchedDec(g *G, tier string, emit func(string)) {
 	docs := []string{}
 	// short documents of both formats, valid and invalid
 	for _, d := range []string{"182a", "6161", "83010203", "9f0102ff", "a16161f6", "bf616101ff", "5f41614162ff", "7f616161ff", "fb3ff0000000000000", "f93c00", "c24101", "3903e7",
-		"1b0000000100000000", "82", "9f01", "a161", "7f6161", "5f4161", "fb3ff0", "ff", "1c", "c1c200"} {
+		"1b0000000100000000", "82", "9f01", "a161", "7f6161", "5f4161", "fb3ff0", "ff", "1c", "c1c200",
+		// cut right after a head that announces a payload of several bytes (the reader's multi-byte path starts on an empty stream)
+		"19", "1a", "1b", "39", "62", "42", "5802", "7803", "f9", "fa", "fb", "c219", "8119", "a16162", "5f42", "7f62", "d819"} {
 		docs = append(docs, "c "+d)
 	}
 	for _, d := range []string{`"ab"`, `[1,2]`, `{"a":1}`, `null`, `true`, `false`, `-12.5e3`, `123 `, `"é\n"`, `[1, 2 ,]`, `{"k":[null,"x"]}`, `"é😀"`,
-		`nul`, `[1,`, `{"a"`, `"ab`, `tru`, `1.`, `[1.]`, `nxyz`, `{1:2}`, ` 7`, `7`, `[]`, `{}`} {
+		`nul`, `[1,`, `{"a"`, `"ab`, `tru`, `1.`, `[1.]`, `nxyz`, `{1:2}`, ` 7`, `7`, `[]`, `{}`, `t`, `n`, `f`, `[t`, `{"a":n`} {
 		docs = append(docs, "j "+hex.EncodeToString([]byte(d)))
 	}
 	maxSplit := 10
